@@ -1,4 +1,40 @@
-import QlibcModel.Tree.Table
+/-
+  C02 — the tree table stays a valid left-leaning red-black tree; lookups are logarithmic.
+
+  `LLRB t` = black root + `Bal`: search-tree shape with no red node having a red child, the
+  same number of black nodes on every path, no right-leaning lone red link (2-3-4 variant:
+  `#define LLRB234` is re-read from the source on every run, Generated/TreeConfig.lean).
+-/
+import QlibcModel.Tree.TableSpec
+import QlibcModel.Generated.TreeConfig
+
 namespace Qlibc.Props.C02
-theorem placeholder : True := trivial
+open Qlibc Qlibc.Tree Qlibc.Tree.T
+variable {α K V : Type} (cmp : K → K → Ordering) (key : α → K)
+
+/-- the model is of the variant the source compiles -/
+theorem variant_is_234 : Generated.llrb234 = true := rfl
+
+/-- insertion (new key or replacement) into a valid tree never faults and gives a valid tree -/
+theorem put_preserves_llrb (new : α) (onDup : α → α) (t : T α) (h : LLRB t) :
+    ∃ t' added, put cmp key new onDup (size t + 1) t = .ok (t', added) ∧ LLRB (blacken t') :=
+  put_llrb cmp key new onDup t h
+
+/-- the empty tree is valid -/
+theorem nil_llrb : LLRB (nil : T α) := ⟨0, Bal.nil⟩
+
+/-- the library's own `qtreetbl_check()` returns 0 exactly on valid trees -/
+theorem check_agrees (t : T α) : check t = 0 ↔ LLRB t := check_iff_llrb t
+
+/-- a valid tree with n keys has height ≤ 2·log2(n+1) -/
+theorem height_bound (t : T α) (h : LLRB t) : height t ≤ 2 * Nat.log2 (size t + 1) := h.height_bound
+
+/-- a lookup among n keys performs at most 2·log2(n+1) key comparisons -/
+theorem find_cost (s : Tbl K V) (k : K) (hi : s.Inv cmp) :
+    s.getCost cmp k ≤ 2 * Nat.log2 (s.num + 1) := Tbl.getCost_le cmp s k hi
+
+-- non-vacuity
+example : LLRB (node (node nil 1 true nil) 2 false (nil : T Nat)) :=
+  ⟨1, Bal.black (Bal.red Bal.nil Bal.nil) Bal.nil (by simp)⟩
+
 end Qlibc.Props.C02
